@@ -40,6 +40,7 @@ type summary struct {
 	Faults      map[string]int `json:"faults"`
 	FaultyRuns  int            `json:"faulty_runs"`
 	CleanRuns   int            `json:"fault_free_runs"`
+	NoErrRuns   int            `json:"runs_without_error_faults"`
 	Nontrivial  []string       `json:"nontrivial"` // distinct (program, schedule, faults) hashes
 	Schedules   []string       `json:"schedules"`
 	Overlaps    []string       `json:"overlaps"`
@@ -177,12 +178,19 @@ func main() {
 		if o.MaxOpSteps > sum.MaxOpSteps {
 			sum.MaxOpSteps = o.MaxOpSteps
 		}
-		nf := 0
+		nf, nerr := 0, 0
 		for _, k := range o.FaultKinds {
 			sum.Faults[k] += o.Faults[k]
 			if k != "reader-parked" {
 				nf += o.Faults[k]
 			}
+			switch k {
+			case sim.FaultTransient, sim.FaultSticky, sim.FaultDataErr, sim.FaultEOFEarly:
+				nerr += o.Faults[k]
+			}
+		}
+		if nerr == 0 {
+			sum.NoErrRuns++
 		}
 		if nf > 0 {
 			sum.FaultyRuns++
